@@ -4,6 +4,7 @@ import (
 	"fmt"
 
 	"github.com/netflix/rend/verifshim/vatomic"
+	"github.com/netflix/rend/verifshim/vrand"
 	"github.com/netflix/rend/verifshim/vsync"
 
 	"verif/sched"
@@ -34,7 +35,7 @@ type ShimHooks struct {
 }
 
 // InstallShimHooks activates the hooks; call Uninstall when the execution is over.
-func init() { vsync.Track = true }
+func init() { vsync.Track = true; vrand.Small = true }
 
 func InstallShimHooks(s *sched.Sched) *ShimHooks {
 	h := &ShimHooks{S: s, locks: map[interface{}]*shimLock{}, pools: map[*vsync.Pool][]interface{}{}, names: map[interface{}]int{}}
